@@ -6,7 +6,11 @@ CONSTANTS BitStep, Overwrites, RandomCount
 ByteCases == {[kind |-> "bytes", comp |-> c, hl |-> h, seedmode |-> sm, bitstep |-> BitStep, overwrites |-> Overwrites] :
                 c \in {"none", "brotli"}, h \in {8, 64}, sm \in {"none", "full", "partial"}}
 \* server misbehaviours for the header reads and for chunk data
-ServerCases == {[kind |-> "server", beh |-> b, target |-> t, k |-> 3] :
+\* a server that never recovers, against a client with a retry budget: the work must stay bounded (error after budget + 1 attempts), whatever
+\* the failure looks like - dropped before the head, head then nothing, head then some bytes, an error status, a clean short body
+ForeverCases == {[kind |-> "server", beh |-> "forever:" \o b, target |-> t, k |-> kk, retries |-> r] :
+                   b \in {"drop", "fin", "short", "status500", "empty"}, t \in {"header1", "header2", "chunks"}, kk \in {0, 1}, r \in {1, 3}}
+ServerCases == ForeverCases \cup {[kind |-> "server", beh |-> b, target |-> t, k |-> 3, retries |-> 0] :
                   b \in {"wrong", "status404", "status500", "page200", "extra", "empty", "short", "fin", "drop",
                         \* framing that lies (Content-Length of 2^62 / 2^63 / 1 MiB too much over the right bytes) or is merely unusual (none, chunked)
                         "clhuge62", "clhuge63", "clplus", "clnone", "chunked"}, t \in {"header1", "header2", "chunks"}}
